@@ -17,7 +17,9 @@ CHECKS = {
              "kind x payload up to the bound (MC_Literal); the real tokenise/parse is run on the same fillings and "
              "on random depth-4 contexts and TLC evaluates shape equality on the observed trees (Trace_Parse).",
         note="Trusted: transcription of lexer/parser rules in spec/VyLexer.tla, spec/VyParser.tla; the 40 contexts "
-             "and 28-character payload alphabet in data/c03_contexts.json; payload length <= 2 exhaustively.",
+             "28-character payload alphabet and lexer alphabet in data/c03_contexts.json; payload length <= 2 exhaustively; "
+             "the emitted Python with constants abstracted (with and without dictionary compression) must not depend on "
+             "the payload either. Known finding: a payload spelling a truncated \\x escape (known_findings.json).",
         ref="DESIGN.md section 6 C03",
         technique="TLA+ spec (VyLexer, VyParser, MC_Literal) checked by TLC + TLC validation of observed parse trees",
     ),
@@ -76,10 +78,12 @@ CHECKS["C01"] = dict(
          "implicit output). TLC explores every program up to the token bound on three input lists step by step "
          "(MC_Machine). The implementation runs the same small programs and structured random programs through "
          "execute_vyxal with statement probes; TLC steps the machine in lock-step with the probes (Trace_Machine) "
-         "and decides the property on the final forced stack and the captured stdout.",
-    note="Trusted: the transcription of the templates/semantics in spec/VyMachine.tla, VyValues.tla (closed core on "
-         "integers and integer lists; anything else = skip:undefined, counted). Lazily mapped lambda bodies must be "
-         "pure (checked by the model, else skipped). Bounds: <= 3/4 symbols exhaustive, depth <= 4 random.",
+         "and decides the property on the final forced stack and the captured stdout. Runs may carry a denotation "
+         "twin (the same program with a list literal written as an equivalent lazy range): both must end alike.",
+    note="Trusted: the transcription of the templates/semantics in spec/VyMachine.tla, VyValues.tla (closed core of 87 "
+         "elements on integers, plain-ASCII strings and lists; anything else = skip:undefined, counted). Lazily mapped "
+         "lambda bodies must be pure for the machine (else only the twin rule applies). Bounds: <= 3/4 symbols "
+         "exhaustive over two alphabets, scenario families, depth <= 4 random.",
     ref="DESIGN.md section 6 C01",
     technique="TLA+ small-step semantics (VyMachine) model-checked by TLC + lock-step TLC validation of probe traces "
               "of execute_vyxal",
@@ -154,7 +158,9 @@ CHECKS["C19"] = dict(
          "as literals and as inputs inside every structure, and failing programs x output flags are run through "
          "execute_vyxal(online_mode=True) with fd-level capture of the host's stdout and a canary that executing the "
          "tainted text as Python would trigger; Trace_Machine's verdict X decides the property on those observations "
-         "and compares the output record with VyMachine's printed text where the run is inside the machine's domain.",
+         "and compares the output record with VyMachine's printed text where the run is inside the machine's domain. "
+         "Runs that fail by construction (unbounded recursion, undefined name, empty global array; eagerly and inside "
+         "lazily produced items) must end in the error record; odd and malformed literal inputs must not raise.",
     note="Trusted: fd-level capture, the canary (positive control: offline the same program triggers it). Elements that "
          "hand strings to sympy's parser (∆e, ∆E, øḋ on strings) do execute user text even online: they are outside "
          "the property's statement (evaluate, call, input parsing) and are reported in DESIGN.md, not claimed.",
@@ -195,8 +201,10 @@ CHECKS["C09"] = dict(
          "table, and of every modifier applied to every key, is executed on a stack of fresh sentinel objects plus "
          "arguments of the table arity; identities and values of all entries before/after are logged and TLC evaluates "
          "Prop_C09 with the per-modifier Touched bound and the whole-stack exemption set of the specification.",
-    note="Trusted: runtime table arity; exemption set {W ^ ! „ ‟ Ȯ † ¨ẇ, Ė on a string}; argument tuples for which "
-         "the element raises are inapplicable (counted, not judged).",
+    note="Trusted: runtime table arity; exemption set {W ^ ! „ ‟ Ȯ ¨ẇ, Ė on a string, † when it calls a function}; "
+         "the number of results is judged where the template fixes it (process_element's shape, † on a non-function, "
+         "v ƒ ɖ ₌ ₍ ~, ß with a falsy condition); runs also under flags r and t; argument tuples for which the "
+         "element raises are inapplicable (counted, not judged).",
     ref="DESIGN.md section 6 C09",
     technique="TLA+ action property (FrameRule on VyMachine) model-checked by TLC + TLC evaluation of the frame "
               "predicate on logged stack identities for every table key and modifier",
